@@ -31,14 +31,14 @@ var ioScenarioNames = map[string][]string{
 	"C11": {"update-rules-read", "update-rules-write", "update-rules-open"},
 	"C12": {"update-assembly-read", "update-rules-write", "update-rules-open", "update-chain-rules-write"},
 	"C13": {"renumber-read", "renumber-all-read", "renumber-write", "renumber-open"},
-	"C14": {"copyright-read", "copyright-list-dir", "copyright-write"},
+	"C14": {"copyright-read", "copyright-read-first-file", "copyright-list-dir", "copyright-write", "copyright-write-first-file"},
 	"C17": {"include-read", "plain-include-read", "format-read", "renumber-read", "copyright-read", "update-rules-read"},
 }
 
 func ioCases(prop string) []*ioScenario {
 	var out []*ioScenario
 	for _, n := range ioScenarioNames[prop] {
-		if !strings.HasSuffix(n, "-write") {
+		if !strings.Contains(n, "-write") {
 			out = append(out, &ioScenario{Name: n, When: "2+"})
 		}
 		if n != "copyright-list-dir" {
@@ -119,6 +119,11 @@ func ioScenarioCheck(env *core.Env, prop string, sc *ioScenario) core.Verdict {
 		args, poison = []string{"util", "renumber-tests", "--all"}, "tests/regression/tests/REQUEST-932-X/932100.yaml"
 	case "copyright-read":
 		args, poison = []string{"chore", "update-copyright", "-v", "4.9.9", "-y", "2031"}, "rules/REQUEST-932-APPLICATION-ATTACK-RCE.conf"
+	case "copyright-read-first-file":
+		// the unreadable file is the first of the walk, the files behind it can be processed
+		args, poison = []string{"chore", "update-copyright", "-v", "4.9.9", "-y", "2031"}, "crs-setup.conf.example"
+	case "copyright-write-first-file":
+		args, poison, call, errno = []string{"chore", "update-copyright", "-v", "4.9.9", "-y", "2031"}, "crs-setup.conf.example", "write", "ENOSPC"
 	case "copyright-list-dir":
 		args, poison, call = []string{"chore", "update-copyright", "-v", "4.9.9", "-y", "2031"}, "rules", "getdents64"
 	default:
